@@ -234,7 +234,17 @@ def check_add(value, acc):
                     case = {"add": repr(value), "key": key, "options": list(opts), "metadata": meta_mode, "kind": kind}
                     acc.case(nontrivial_key=("add", repr(value), key, opts, meta_mode, kind))
                     try:
-                        out = AddEnclosingMiddleware(reuse_previous_enclosing=opts[1], enclose_integers=opts[2], default_enclosing=opts[0], allow_inplace_modification=False).transform(Library([blk]))
+                        # the same configuration in two spellings: keywords, positional in the documented order
+                        spelling = (KEYS.index(key) + OPTIONS.index(opts)) % 2
+                        case["spelling"] = ["keywords", "positional (reuse_previous_enclosing, enclose_integers, default_enclosing, allow_inplace_modification)"][spelling]
+                        if spelling == 0:
+                            mw_ = AddEnclosingMiddleware(reuse_previous_enclosing=opts[1], enclose_integers=opts[2], default_enclosing=opts[0], allow_inplace_modification=False)
+                        else:
+                            mw_ = AddEnclosingMiddleware(opts[1], opts[2], opts[0], False)
+                        out = mw_.transform(Library([blk]))
+                        if out.blocks[0] is blk:
+                            acc.violation({"oracle": "copy_mode_respected", "spelling": case["spelling"]}, {"case": case, "observed": "the input block came back", "expected": "a copy"})
+                            continue
                     except Exception as ex:
                         acc.violation(
                             {"oracle": "add_no_exception", "exception": type(ex).__name__, "kind": kind},
